@@ -188,6 +188,15 @@ def _nan_grouped_op(group_idx, array, func, fillna, *args, **kwargs):
     if fillna in (np.inf, -np.inf):
         allnangroups = result == fillna
         if allnangroups.any():
+            # a group whose true extreme is +-inf also equals the substitute;
+            # only groups without a single valid member are all-NaN
+            nvalid = sum(
+                group_idx,
+                notnull(array).astype(np.intp),
+                *args,
+                **{**kwargs, "fill_value": 0, "dtype": np.intp},
+            )
+            allnangroups = allnangroups & (nvalid == 0)
             result[allnangroups] = kwargs["fill_value"]
     return result
 
